@@ -161,6 +161,11 @@ class Report(object):
             cov["records_in_database"] = len(db.records)
             cov["tree_key"] = db.key
             cov["config"] = db.config
+        if self.level == "proof":
+            # obligations refuted by a *recorded known finding* are reported separately:
+            # the proof claim covers the obligations outside the recorded defect
+            cov["obligations_total_including_known_findings"] = len(self.obls)
+            cov["obligations"] = len(self.obls) - n_known
         cov.update(self.extra)
         if self.broken:
             cov["analysis_broken"] = self.broken
